@@ -90,6 +90,31 @@ CHECKS = {
              "quick": B(12000, 15), "thorough": B(400000, 150, 500)},
         ],
     },
+    "C11": {
+        "level": "exploration",
+        "rule": "failure-seeking variants of the document, array, file, calibration and damaged-file workloads: 25-50 % of the generated "
+                "arguments are invalid (indices from {-1, n, n+1}, wrong types/dimensions, deleted or foreign handles, malformed "
+                "descriptors, too few standards, out-of-band frequencies) and allocation / stream faults are injected into the rest; after "
+                "every call the return value, errno, the recorded error-function invocations and the complete observable state are "
+                "judged; non-trivial per the engine's rule (>= 3 compared states / a compared calibration / a damaged load); distinct = plan fingerprint",
+        "assumptions": [
+            "which calls must / must not invoke the error function is taken from vnacal(3), vnacal_new(3), vnacal_parameter(3), vnaproperty(3); "
+            "vnadata(3) only refers to vnaerr(3), so for vnadata calls only the form of a report is judged (single line, category <-> errno, none on success), not its presence",
+            "'exactly when the manual says' is read as: at least one report before a failing return of a reporting function, none from a silent one, none (except warnings) on success",
+            "vnaproperty queries that reach a node which exists but is null return -1/NULL with errno untouched (documented for get_subtree): not judged",
+            "state after a call that fails late (allocation fault, damaged file) is only required to be usable (queried, re-initialised, saved, freed), as the statement says",
+        ],
+        "expected_probes": ["refused", "set_refused", "del_refused", "solve_after_failures", "insufficient_reported", "rejected"],
+        "subchecks": [
+            {"check": "C11.doc", "what": "property trees: refused set / set_subtree / delete / copy change nothing; import / export reporting", "quick": B(20000, 25), "thorough": B(600000, 250, 500)},
+            {"check": "C11.array", "what": "vnadata objects: refused setters, resize, set_type, convert change no getter's answer; reporting form", "quick": B(20000, 25), "thorough": B(600000, 250, 500)},
+            {"check": "C11.array.files.faulty", "what": "vnadata save / load / cksave with stream and allocation faults: destination usable, reporting form", "quick": B(6000, 25), "thorough": B(200000, 250, 200)},
+            {"check": "C11.cal", "what": "parameters, sessions, standards with invalid ports / handles, add_calibration indices, silent queries", "quick": B(3000, 35), "thorough": B(120000, 400, 100)},
+            {"check": "C11.cal.retry", "what": "failed solves (too few standards) retried after adding standards", "quick": B(2000, 30), "thorough": B(80000, 300, 100)},
+            {"check": "C11.cal.store.faulty", "what": "vnacal save / load under stream and allocation faults: reporting, nothing left behind", "quick": B(1500, 25), "thorough": B(60000, 250, 100)},
+            {"check": "C11.corrupt", "what": "damaged files: clean failure (errno, one-line report, no INTERNAL), destination still usable", "quick": B(6000, 20, 50), "thorough": B(300000, 250, 200)},
+        ],
+    },
     "C16": {
         "level": "exploration",
         "rule": "2-4 calibration sessions (all eight types, 1-3 ports, m and a/b forms), a parameter churner and a catalogue task are "
@@ -254,7 +279,6 @@ NOT_APPLICABLE = {
 # properties the design claims but whose check is not built yet (listed as not claimed until then)
 PLANNED = {
     "C03": "check under construction (chaos engine, DESIGN.md section 5); not claimed until it exists",
-    "C11": "check under construction (failure-seeking workloads); not claimed until it exists",
 }
 
 MANIFEST_TEXT = {
@@ -289,6 +313,13 @@ MANIFEST_TEXT = {
         "design_ref": "DESIGN.md section 5 C06",
         "level_note": "trusts the independent readers (sim/readers.h), ArrayModel and vnaconv_* for the expected parameter forms",
         "technique": "deterministic simulation: simulated disk + restart + stream faults, independent-reader and model oracles",
+    },
+    "C11": {
+        "level_text": "seeded exploration of failure-seeking histories: every call's return value, errno class, error-function invocations "
+                      "and the state before/after a refused call are judged against the manual pages and the reference models; evidence, not proof",
+        "design_ref": "DESIGN.md section 5 C11",
+        "level_note": "which functions report is taken from the manual pages (assumptions in the evidence file); state equality through the public getters only",
+        "technique": "deterministic simulation: invalid-argument and fault-seeking seeded histories vs. reference models, recorded error-callback history",
     },
     "C16": {
         "level_text": "seeded exploration of interleavings of logical clients on one vnacal_t against a table/handle model, the "
